@@ -853,7 +853,9 @@ class Dict(dict, base.Symbolic, pg_typing.CustomTyping):
       value = self.sym_getattr(key)
     if value == pg_typing.MISSING_VALUE:
       self[key] = default
-      value = default
+      # Returns the value as stored (e.g. a plain list becomes a `pg.List`), so
+      # that `d.setdefault(k, []).append(x)` works as on a standard dict.
+      value = self.sym_getattr(key, default)
     return value
 
   def update(
